@@ -1,4 +1,6 @@
 import RlboxModel.Ops
+import RlboxModel.FloatOps
+import RlboxModel.Lemmas.CastLemmas
 /-!
 # C16 — Operators on tainted numbers compute exactly what the plain operators compute
 Property theorems only.  Every statement is for an arbitrary `PlainSem` (so nothing depends on our
@@ -127,6 +129,50 @@ theorem ops_tables_match :
     Generated.postIncDecUsesOwnSymbol = true ∧ Generated.preIncDecStep = ("opSymbol", 1) ∧
     Generated.compoundBody = "opSymbol" ∧
     sameElems Generated.booleanBinaryOp ["&&", "||"] = true ∧ sameElems Generated.booleanBinaryOpWrappedRhs ["&&", "||"] = true := by decide
+
+/-! ## Floating-point operands (`FloatOps.lean`) -/
+
+/-- `x++` / `x--` on a tainted floating-point value return the value the object held BEFORE the update --
+not a value re-derived from the new one -- and store `x ± 1` rounded once; the pre forms return what they
+store. -/
+theorem C16_float_incdec (f : FloatTy) (dec : Bool) (x : Dy) :
+    (fIncDec f true dec x).1 = x ∧
+    (fIncDec f true dec x).2 = fbin f (if dec then .sub else .add) x Dy.one ∧
+    (fIncDec f false dec x).1 = (fIncDec f false dec x).2 ∧
+    (fIncDec f false dec x).2 = (fIncDec f true dec x).2 :=
+  ⟨rfl, rfl, rfl, rfl⟩
+
+/-- re-deriving the old value as `(x + 1) - 1` is NOT the same function: it differs for 0.1f, for 2^24, and
+for anything tiny -/
+theorem C16_float_rederive_differs :
+    ¬ (fbin .float .sub (fbin .float .add ⟨13421773, 27⟩ Dy.one) Dy.one).same ⟨13421773, 27⟩ ∧
+    ¬ (fbin .float .sub (fbin .float .add ⟨16777216, 0⟩ Dy.one) Dy.one).same ⟨16777216, 0⟩ ∧
+    ¬ (fbin .double .sub (fbin .double .add ⟨1, 60⟩ Dy.one) Dy.one).same ⟨1, 60⟩ := by decide
+
+/-- when operands are values of the result type and the exact result fits its significand, the wrapped
+operator yields the exact result (no rounding anywhere) -/
+theorem C16_float_exact (f : FloatTy) (op : FOp) (a b : Dy) (ha : a.num.natAbs < 2 ^ f.prec) (hb : b.num.natAbs < 2 ^ f.prec)
+    (hr : (op.exact a b).num.natAbs < 2 ^ f.prec) : fbin f op a b = op.exact a b := by
+  have ea : a.round f = a := by unfold Dy.round; rw [CastLemmas.intToFloat_exact f _ ha]
+  have eb : b.round f = b := by unfold Dy.round; rw [CastLemmas.intToFloat_exact f _ hb]
+  unfold fbin
+  rw [ea, eb]
+  unfold Dy.round
+  rw [CastLemmas.intToFloat_exact f _ hr]
+
+/-- `+` and `*` do not depend on the order of the operands (so neither on which side carries which wrapper) -/
+theorem C16_float_comm (f : FloatTy) (a b : Dy) :
+    fbin f .add a b = fbin f .add b a ∧ fbin f .mul a b = fbin f .mul b a := by
+  simp [fbin, FOp.exact, Dy.add, Dy.mul, Dy.round, Int.add_comm, Int.mul_comm, Nat.add_comm]
+
+/-- result type by the usual arithmetic conversions: the wider floating-point type; an integer operand is
+converted to the floating-point type of the other side -/
+theorem C16_float_result_type :
+    fResTy (.flt .float) (.flt .double) = some .double ∧ fResTy (.flt .double) (.flt .float) = some .double ∧
+    fResTy (.flt .float) .int = some .float ∧ fResTy .int (.flt .double) = some .double ∧ fResTy .int .int = none := by decide
+
+example : (fbin .float .add ⟨16777216, 0⟩ ⟨1, 0⟩).same ⟨16777216, 0⟩ ∧ (fbin .double .add ⟨16777216, 0⟩ ⟨1, 0⟩).same ⟨16777217, 0⟩ ∧
+    (fbin .float .mul ⟨3, 1⟩ ⟨-5, 2⟩).same ⟨-15, 3⟩ ∧ (fIncDec .double true false ⟨1, 1⟩).2.same ⟨3, 1⟩ := by decide
 
 /-- non-vacuity (with the executable C++ rendering): mixed wrappers and types -/
 example : (match logicalOp cppLog .land ⟨.tainted, ⟨tInt, 2⟩, tInt⟩ ⟨.tvol, ⟨tInt, 1⟩, tInt⟩ with | .ok r => r | _ => false) = true := by decide
